@@ -66,7 +66,7 @@ fn check(t: &mut Tape, ctx: &mut Ctx) -> CheckResult {
     };
     wf(ctx, "native-wf", from_lax(&native), "native image")?;
     let mut nq = native.clone();
-    let q = nq.quotient().map_err(|_| ctx.fail("native-path-defined", "the native image cannot be quotiented (label conflict)"))?;
+    let _q0 = nq.quotient().map_err(|_| ctx.fail("native-path-defined", "the native image cannot be quotiented (label conflict)"))?;
     let got = wf(ctx, "native-wf", from_lax(&nq), "quotiented native image")?.d;
     let want = substitute(&d, &strictified);
     require_iso(ctx, "native-is-substitution", &got, &want, "quotiented native image vs substitution")?;
@@ -80,7 +80,12 @@ fn check(t: &mut Tape, ctx: &mut Ctx) -> CheckResult {
     let Some((g, wit)) = map_arrow_witness(&functor, &l) else {
         return Err(ctx.fail("witness", "map_arrow_witness returned None on a quotient-free diagram"));
     };
-    ensure!(ctx, g == native, "witness", "map_arrow_witness and try_define_map_arrow return different diagrams");
+    // the diagram returned with the witness is itself a correct image
+    let mut gq = g.clone();
+    let q = gq.quotient().map_err(|_| ctx.fail("witness", "the diagram returned with the witness cannot be quotiented"))?;
+    let gd = wf(ctx, "native-wf", from_lax(&gq), "quotiented witness diagram")?.d;
+    require_iso(ctx, "witness-diagram-is-substitution", &gd, &want, "diagram returned by map_arrow_witness vs substitution")?;
+    let nq = gq;
     let (segs, tgt) = wf(ctx, "witness", sv::decode_icf(&wit), "witness")?;
     ensure!(ctx, tgt == g.hypergraph.nodes.len(), "witness", "witness codomain {} but the image has {} nodes", tgt, g.hypergraph.nodes.len());
     ensure!(ctx, segs.len() == d.nodes.len(), "witness", "witness has {} segments for {} input nodes", segs.len(), d.nodes.len());
